@@ -12,7 +12,7 @@
    Verdict codes: 0 ok, 2 mismatch, 10 = known finding D2 (two-sided exact p-value equals the legacy
    formula 2*CDF(min(U1,U2)) where the specified min(1, 2 min(Pr[U'<=U], Pr[U'>=U])) differs). *)
 From Coq Require Import Qround.
-From MM Require Import Base.Num Base.GEComb Model.Choose Model.Udist Model.Utest.
+From MM Require Import Base.Num Base.GEComb Model.GEChoose Model.Udist Model.Utest.
 Local Open Scope Z_scope.
 
 Definition V_KNOWN_D2 : Z := 10.
